@@ -18,6 +18,7 @@ import (
 type C14 struct {
 	Size, Min int64
 	Extra     bool // adds a second pair of forms, a restart of the module, and a provider (Q6) that can lose its only proof
+	Rejoin    bool // the prover, once reported off the file, may claim it again with a fresh proof (open forms outlive its absence)
 }
 
 var c14File = mkFile(seqBytes(12, 7), 4)
@@ -41,6 +42,8 @@ type c14Model struct {
 	Restarted          bool     // the storage module has been restarted from its exported genesis
 	F2Deleted          bool     // the second file (Q6's only proof) has been deleted by its owner
 	Shut               []string // providers that have deregistered (they may still be named on an open form)
+	VOff               bool     // the prover is currently not listed on the file
+	Rejoins            int
 }
 
 func (m c14Model) Key() []byte { return jkey(m) }
@@ -49,6 +52,9 @@ func (s C14) ID() string { return "C14" }
 func (s C14) Name() string {
 	if s.Extra {
 		return fmt.Sprintf("C14/forms-size%d-min%d-extra", s.Size, s.Min)
+	}
+	if s.Rejoin {
+		return fmt.Sprintf("C14/forms-size%d-min%d-rejoin", s.Size, s.Min)
 	}
 	return fmt.Sprintf("C14/forms-size%d-min%d", s.Size, s.Min)
 }
@@ -114,6 +120,9 @@ func (s C14) Events(env world.Env, mm mc.Model) []string {
 		evs = append(evs, "Report:"+x+":V")
 	}
 	evs = append(evs, "Attest:Q2:Q3", "Report:Q2:Q3") // forms that were never requested
+	if s.Rejoin && m.VOff && m.Rejoins < 1 {
+		evs = append(evs, "Rejoin:V")
+	}
 	if !s.Extra {
 		if m.Blocks < 2 {
 			evs = append(evs, "NextBlock")
@@ -198,6 +207,14 @@ func (s C14) Apply(env world.Env, mm mc.Model, ev string) mc.Step {
 		}
 		m.Blocks++
 		st.Outcome = "block"
+	case "Rejoin":
+		item, hl := c14File.proofFor(0)
+		if ok, e := postProofOK(w, env.Deliver(storagetypes.NewMsgPostProof(v, c14File.merkle, u, m.Start, item, hl, 0))); !ok {
+			panic("harness: the prover could not claim the file again: " + e)
+		}
+		m.Rejoins++
+		st.Outcome = "ok"
+		st.Exercised = append(st.Exercised, "prover-rejoined")
 	case "Shutdown":
 		if env.Deliver(storagetypes.NewMsgShutdownProvider(w.A(p[1]).Bech)).OK() {
 			st.Outcome = "ok"
@@ -291,7 +308,13 @@ func (s C14) Apply(env world.Env, mm mc.Model, ev string) mc.Step {
 				why = "repeated-signature"
 			}
 			st.Exercised = append(st.Exercised, p[0]+"/"+why)
-			if !storeEqual(before, after) {
+			// a signer whose earlier signature met a form that could not complete (the prover was off the file) may
+			// sign again: the quorum of distinct named signers exists, so the form may complete now
+			completes := s.Rejoin && why == "repeated-signature" && int64(len(*signed)) >= s.Min
+			if completes {
+				st.Exercised = append(st.Exercised, p[0]+"/repeat-on-a-reached-quorum")
+			}
+			if !storeEqual(before, after) && !completes {
 				vs = append(vs, viol("ineffective-signature-has-no-effect", p[0]+" "+why, "%s changed the storage store: %v", ev, storeDiffKeys(before, after)))
 			}
 		} else {
@@ -325,6 +348,9 @@ func (s C14) Apply(env world.Env, mm mc.Model, ev string) mc.Step {
 			st.Exercised = append(st.Exercised, p[0]+"/quorum-reached-without-effect")
 		}
 	}
+	if f, ok := getFile(w, env.Ctx(), c14File.merkle, u, m.Start); ok {
+		m.VOff = !proverListed(f, v)
+	}
 	st.Model, st.Viols = m, vs
 	return st
 }
@@ -338,6 +364,8 @@ func init() {
 	}
 	regScenario(C14{Size: 3, Min: 2, Extra: true})
 	regScenario(C14{Size: 2, Min: 2, Extra: true})
+	regScenario(C14{Size: 2, Min: 2, Rejoin: true})
+	regScenario(C14{Size: 3, Min: 2, Rejoin: true})
 	Props["C14"] = Prop{Level: "model_checking", Run: func(r *mc.Run, tier string) {
 		r.Rules = append(r.Rules, "for each (form size, minimum) in {(1,1),(2,1),(2,2),(3,2),(3,3),(3,0),(4,2)}: BFS over request-attestation, request-report, Attest and Report by every account in {same-domain provider, 3 eligible providers, registered provider without proofs, the prover itself, unregistered proof holder} incl. repeats and never-requested forms, NextBlock (changes the shuffle); reference = set of distinct named signers per form")
 		r.Assumptions = append(r.Assumptions, "7 signers, one file, forms created at up to 3 heights", strings.TrimSpace("whether a reached quorum completes the form is counted, not enforced (the statement demands safety only)"))
@@ -347,6 +375,9 @@ func init() {
 		r.Rules = append(r.Rules, "extra variant for (3,2) and (2,2): the same plus a second pair of forms about another prover, one restart of the storage module from its own exported genesis (open forms must survive byte-identically) and a provider whose only proof can disappear (the owner deletes that file) inside the block in which forms are requested")
 		r.AddExplore(C14{Size: 3, Min: 2, Extra: true}, opts(tier, 7, 11, 40, 600, 30, 300))
 		r.AddExplore(C14{Size: 2, Min: 2, Extra: true}, opts(tier, 7, 11, 40, 600, 30, 300))
+		r.Rules = append(r.Rules, "rejoin variant for (2,2) and (3,2): the prover, reported off the file, claims it again with a fresh proof while forms about it are still open; a signature repeated after the quorum of distinct named signers exists may complete the form, nothing else may")
+		r.AddExplore(C14{Size: 2, Min: 2, Rejoin: true}, opts(tier, 13, 18, 30, 600, 30, 300))
+		r.AddExplore(C14{Size: 3, Min: 2, Rejoin: true}, opts(tier, 13, 18, 30, 600, 30, 300))
 	}}
 	_ = sdk.ZeroInt
 }
